@@ -1,4 +1,6 @@
 import AmVerif.Model.World
+import AmVerif.Gen.TabErr
+import AmVerif.Gen.TabLoad
 /-!
 # The type universe of the harness, as loader programs
 
